@@ -55,6 +55,10 @@ class Task:
         return '<Task %d %s %s>' % (self.id, self.name, self.state)
 
 
+SIGS = set()        # distinct schedule signatures executed in this process
+STATS = {'runs': 0, 'choices': 0}
+
+
 class Sched:
     def __init__(self, policy='fifo', seed=0, prefix=None, yield_prob=0.0,
                  backend='greenlet', max_steps=2000000):
@@ -311,6 +315,11 @@ class Sched:
         """Tear down: resume every unfinished task with TaskKilled (bounded
         retries because the code under test has bare except clauses)."""
         zombies = 0
+        # evidence: which interleaving this run was (choice sequence)
+        STATS['runs'] += 1
+        STATS['choices'] += len(self.trace)
+        if len(SIGS) < 2000000:
+            SIGS.add(hash(tuple(self.trace)))
         for t in list(self.tasks):
             if t.state == 'done':
                 continue
